@@ -74,12 +74,9 @@ Definition sol_find (s : sol) (key : Z) : sol * Z :=
 Definition sol_init (bc : Z) : sol := mksol [(0, -1)] [] bc 0.
 
 (* ---- flat interface: multi, initial bucket count, then (op key)*: 1 insert | 3 find | 9 dump.
-   dump = bucket count, size, number of nodes, then (order key, key) per node, then the sorted initialised buckets ---- *)
-Fixpoint insert_sorted (x : Z) (l : list Z) : list Z :=
-  match l with [] => [x] | y :: tl => if x <=? y then x :: l else y :: insert_sorted x tl end.
+   dump = bucket count, size, number of nodes, then (order key, key) per node (dummy nodes = initialised buckets) ---- *)
 Definition sol_dump (s : sol) : list Z :=
-  s_bc s :: s_size s :: Z.of_nat (length (s_nodes s)) :: flat_map (fun n => [fst n; snd n]) (s_nodes s)
-  ++ Z.of_nat (length (s_inited s)) :: fold_right insert_sorted [] (s_inited s).
+  s_bc s :: s_size s :: Z.of_nat (length (s_nodes s)) :: flat_map (fun n => [fst n; snd n]) (s_nodes s).
 
 Fixpoint run_sol_go (fuel : nat) (multi : bool) (l : list Z) (s : sol) : list Z :=
   match fuel with
